@@ -208,6 +208,7 @@ pub struct TlsHostInfo {
     pub private_key_path: String,
     /// List of alternative SNIs that should be accepted for this host.
     /// When a client sends one of these SNIs, the connection will use this host's certificate.
+    /// MUST NOT contain the hostname or an alternative SNI of another host.
     #[serde(default)]
     pub allowed_sni: Vec<String>,
 }
@@ -594,9 +595,25 @@ impl TlsHostsSettings {
                 format!("Invalid key: path='{}', error='{}'", h.private_key_path, e)
             })?;
 
-            if !unique_hosts.insert(&h.hostname) {
+            // A name must select exactly one host: neither the hostname nor an alternative SNI
+            // may be taken by one of the previous hosts (repeating a name within a host is harmless)
+            if unique_hosts.contains(h.hostname.as_str()) {
                 return Err(format!("Hostname must be unique: {}", h.hostname));
             }
+
+            if let Some(sni) = h
+                .allowed_sni
+                .iter()
+                .find(|x| unique_hosts.contains(x.as_str()))
+            {
+                return Err(format!(
+                    "Alternative SNI is already taken by another host: hostname='{}', sni='{}'",
+                    h.hostname, sni
+                ));
+            }
+
+            unique_hosts.insert(&h.hostname);
+            unique_hosts.extend(h.allowed_sni.iter().map(String::as_str));
         }
 
         Ok(unique_hosts)
